@@ -66,6 +66,21 @@ def View.applyLenient (v : View) : Out → View
   | .assetAddBcast _ a => { v with assets := setAsset v.assets a }
   | _ => v
 
+/-- fold the messages of a concurrent block the way a client must: what is attached (action, asset, component) to an
+    entity it has been told, within the block, is deleted comes too late and is ignored - entity ids are never reissued
+    in a session, so the deletion is final; an attachment that precedes the relay of its entity's creation is kept -/
+def View.applyLenientAll (v : View) (msgs : List Out) : View :=
+  (msgs.foldl (fun (acc : View × List Nat) (o : Out) =>
+    let (v, gone) := acc
+    match o with
+    | .entityDeleteBcast _ eid => (v.applyLenient o, eid :: gone)
+    | .actionBcast _ a => if gone.contains a.eid then acc else (v.applyLenient o, gone)
+    | .assetAddBcast _ a => if gone.contains a.eid then acc else (v.applyLenient o, gone)
+    | .compAddBcast _ c | .compUpdateBcast _ c => if gone.contains c.eid then acc else (v.applyLenient o, gone)
+    | .entityAddBcast _ e => if gone.contains e.id then acc else (v.applyLenient o, gone)
+    | .poseBcast _ eid _ => if gone.contains eid then acc else (v.applyLenient o, gone)
+    | _ => (v.applyLenient o, gone)) (v, [])).1
+
 def View.applyAll (v : View) : List Out → Option View
   | [] => some v
   | m :: ms => (v.apply m).bind (·.applyAll ms)
@@ -259,13 +274,19 @@ def VState.step (m : VState) (st : IStep) : VState :=
           -- what it was sent before the join response belongs to the session it left or is covered by the state it is
           -- handed afterwards (a change precedes its relay, the snapshot follows the response)
           let after := (inbox.dropWhile fun (o : Out) => match o with | .joinResp .. => false | _ => true).drop 1
-          m.put { conn := k, view := after.foldl View.applyLenient v0 }
+          m.put { conn := k, view := v0.applyLenientAll after }
         | some _, none => m.drop k
         | none, _ =>
           match m.find k with
           | some x =>
-            let v := inbox.foldl View.applyLenient x.view
-            let v := match mine with | some r => v.own r inbox | none => v
+            let v := x.view.applyLenientAll inbox
+            -- its own accepted attachment to an entity it has meanwhile been told is gone went with that entity
+            let orphan : Bool := match mine with
+              | some (.action _ _ (some a)) => !v.hasEnt a.eid
+              | some (.assetAdd _ _ _ eid) => !v.hasEnt eid
+              | some (.compAdd _ _ _ eid _) => !v.hasEnt eid
+              | _ => false
+            let v := match mine with | some r => if orphan then v else v.own r inbox | none => v
             m.put { x with view := v }
           | none => m) m
     | .disconnect c => (m.deliverOthers c st.ds).drop c
